@@ -154,21 +154,21 @@ def run(ctx, rep) -> None:
     rep.rule("C01.3", "refresh schedule equals `step == start or (step > start and step % freq == 0)` on the incremented group step; the amortized computation runs only under it")
     rep.rule("C01.4", "group step counter incremented exactly once by 1 before the group step; per-group counter stored in optimizer state inside the group loop")
     rep.rule("C01.5", "per-step hyperparameters come from the loop's param group (scheduler changes take effect next step) and reach the matching formal")
-    who_may_write(ctx, rep, "C01.1")
-    _effect_order(ctx, rep)
+    rep.attempt("who_may_write", who_may_write, ctx, rep, "C01.1")
+    rep.attempt("_effect_order", _effect_order, ctx, rep)
     step = repo.method(DS, "step")
-    schedule_expr_check(ctx, rep, "C01.3", step, "perform_amortized_computation", lambda s, a, f, env: s == a or (s > a and s % f == 0), "step == start or (step > start and step % freq == 0)")
-    _amortized_guard(ctx, rep)
-    _step_counter(ctx, rep)
-    _wiring(ctx, rep)
-    loop_var_leak(ctx, rep, "C01.4", [f"{DS}.{n}" for n in ("_instantiate_steps", "_instantiate_momentum", "_instantiate_filtered_grads", "_instantiate_grafting", "_instantiate_shampoo_preconditioner_list", "_instantiate_distributor", "step")])
+    rep.attempt("schedule_expr_check", schedule_expr_check, ctx, rep, "C01.3", step, "perform_amortized_computation", lambda s, a, f, env: s == a or (s > a and s % f == 0), "step == start or (step > start and step % freq == 0)")
+    rep.attempt("_amortized_guard", _amortized_guard, ctx, rep)
+    rep.attempt("_step_counter", _step_counter, ctx, rep)
+    rep.attempt("_wiring", _wiring, ctx, rep)
+    rep.attempt("loop_var_leak", loop_var_leak, ctx, rep, "C01.4", [f"{DS}.{n}" for n in ("_instantiate_steps", "_instantiate_momentum", "_instantiate_filtered_grads", "_instantiate_grafting", "_instantiate_shampoo_preconditioner_list", "_instantiate_distributor", "step")])
     from .arith import adagrad_arithmetic, factor_arithmetic, inverse_root_wiring, step_arithmetic
 
     rep.rule("C01.6", "arithmetic of the recurrences: term-valued abstract interpretation of the group step, the diagonal and Kronecker-factor updates and the inverse-root refresh, compared with the documented formulas as exact rational functions over every flag case")
-    step_arithmetic(ctx, rep, "C01.6")
-    adagrad_arithmetic(ctx, rep, "C01.6")
-    factor_arithmetic(ctx, rep, "C01.6")
-    inverse_root_wiring(ctx, rep, "C01.6")
+    rep.attempt("step_arithmetic", step_arithmetic, ctx, rep, "C01.6")
+    rep.attempt("adagrad_arithmetic", adagrad_arithmetic, ctx, rep, "C01.6")
+    rep.attempt("factor_arithmetic", factor_arithmetic, ctx, rep, "C01.6")
+    rep.attempt("inverse_root_wiring", inverse_root_wiring, ctx, rep, "C01.6")
     rep.assume("C01.6 abstracts every per-block list by one representative element (foreach ops and per-block loops are element-wise over aligned lists: C04.1) and treats matrix routines / tensordot / norms as uninterpreted functions; the numerics inside matrix_inverse_root (C10) and the mode-wise contraction of _precondition_grad are NOT decided")
 
 
@@ -236,7 +236,7 @@ def _effect_order(ctx, rep) -> None:
     else:
         raise AnalysisError(f"C01.2: unrecognised scaling factor `{ast.unparse(factor) if factor is not None else None}` for the direction list")
     # complementary guards of coupled / decoupled weight decay, and state-creation guards
-    _guard_tables(ctx, rep)
+    rep.attempt("_guard_tables", _guard_tables, ctx, rep)
     rep.floor("C01.2", "_per_group_step_impl roles", len(role_calls), 8)
 
 
